@@ -208,6 +208,16 @@ pub fn frame_hexes(frames: &[Frame]) -> Vec<String> {
 /// characters for which char::to_digit(16) is None (never a line feed)
 pub const DECO: &[char] = &['*', '@', ';', ':', ',', ' ', '\t', '\r', '.', '-', '_', '#', '!', '?', '/', '(', ')', '"', '+', '=', '<', '>', '~', 'g', 'h', 'x', 'z', 'G', 'X', 'Z', 'é', 'Ω', 'Ж', '٣', 'Ａ', '１', '\u{0}', '\u{7f}'];
 
+/// one decoration character: the hand-picked list, or any character U+0000..U+00FF that is neither a hexadecimal
+/// digit nor a line feed (control characters included)
+pub fn deco_char() -> BoxedStrategy<char> {
+    prop_oneof![
+        2 => proptest::sample::select(DECO.to_vec()),
+        2 => (0u32..256).prop_filter_map("not a hex digit, not LF", |v| char::from_u32(v).filter(|c| !c.is_ascii_hexdigit() && *c != '\n')),
+    ]
+    .boxed()
+}
+
 /// a junk line (bytes, no LF) that the reference never takes as a frame.
 /// Soundness rule: a line containing invalid UTF-8 or NUL-only noise never carries an accepted digit count.
 pub fn junk_line() -> BoxedStrategy<Vec<u8>> {
